@@ -26,6 +26,9 @@ def cases(draw, tier, override=None):
           "p_csum": 25, "p_always": 15, "p_gate": 60, "p_stem": 35, "p_postgate": 25, "p_lossy": 50,
           "p_poststamp_gate": 20}
     go.update(override or {})
+    with_failures = not override and draw(st.integers(0, 99)) < 25
+    if with_failures:
+        go["p_fail"] = 30
     proj = draw(sgen.graphs(go))
     L = proj["layers"]
     allt = L["tops"] + L["mids"] + L["leaves"]
@@ -52,7 +55,10 @@ def cases(draw, tier, override=None):
     else:
         argv = ["redo-ifchange"] + ts
         js = {"tokens": draw(st.integers(0, 4)), "held": 0, "high": draw(st.integers(0, 1)) == 1}
+    fails = sorted({s_[1] for spec in proj["dofiles"].values() for s_ in spec["body"] if s_[0] == "failflag"})
+    failing = [f for f in fails if draw(st.integers(0, 2)) > 0] if with_failures else []
     return {"project": proj, "invs": [{"argv": argv, "cwd": "", "env": env, "jobserver": js}], "targets": ts,
+            "failing": failing,
             "kind": kind, "prebuild": draw(st.integers(0, 1)) == 1, "schedule": draw(sgen.schedule()),
             "sopts": {"seed": draw(st.integers(0, 2 ** 31 - 1)), "coincide": draw(st.integers(0, 2)) > 0, "token_games": False,
                       "patient": draw(st.integers(0, 3)) == 0}}
@@ -80,6 +86,8 @@ def run_case(case, tier):
                 raise runner.Inconclusive("prebuild failed")
             r.disk.take_trace()
             r.disk.write("s0", P.source_content("s0", 1))
+        for f in case.get("failing", []):
+            r.disk.set_fail(f, True)      # (after the pre-build: failures at a later rebuild)
         r.run()
         inv = r.invs[0]
         out.commands = 1
@@ -102,6 +110,9 @@ def run_case(case, tier):
         if case.get("prebuild"):
             m.cmd_ifchange(ts)
             m.user_write("s0", P.source_content("s0", 1))
+        if case.get("failing"):
+            m.failflags = set(case["failing"])
+            out.events["c07:with-failing-scripts"] += 1
             out.events["c07:rebuild-after-edit"] += 1
             if m.oob_used or hist.has_nested_csum(m):
                 pass
@@ -144,10 +155,25 @@ def run_case(case, tier):
             out.violation = {"property": "C07", "clause": "twice-in-run", "step": 0, "detail": dict(ctx, dup=dup),
                              "sig": {"symptom": "twice"}}
             return out
+        if r.tl.overlaps:
+            out.violation = {"property": "C07", "clause": "twice-in-run", "step": 0,
+                             "detail": dict(ctx, overlaps=r.tl.overlaps[:5]), "sig": {"symptom": "twice"}}
+            return out
         # (2) exit status + bytes == model (== serial build, checked below as well)
         if (inv.rc == 0) != ok_model:
             out.violation = {"property": "C07", "clause": "exit-status", "step": 0, "detail": ctx,
                              "sig": {"symptom": "exit %d" % inv.rc}}
+            return out
+        if case.get("failing") and r.orphans:
+            # a redo process left while a script it had started was still at a gate: that script's result is never
+            # recorded, which no serial build does (there, nothing runs any more when a failure ends the command)
+            out.violation = {"property": "C07", "clause": "running-job-abandoned-result-never-recorded", "step": 0,
+                             "detail": dict(ctx, orphans=r.orphans[:5]), "sig": {"symptom": "orphaned-job"}}
+            return out
+        if case.get("failing") and not ok_model:
+            # what else gets built before a failure stops the command depends on the schedule (without keep-going):
+            # only "at most once" and the exit status are compared with the serial build
+            out.events["c07:failure-reached(once-per-run and exit status only)"] += 1
             return out
         if set(r.tl.starts) != set(m.executed):
             nested = hist.has_nested_csum(m)
